@@ -16,6 +16,17 @@ def handleArmCompile (args _obs : List String) : Verdict :=
     { agree := predicted, propOk := false, branch := "arm-rejected", detail := " key=c08.compile-line-" ++ l }
   | _ => bad "arity"
 
+/-- `armhammer <line> <N> <T> | refused= exit=`: T threads make exactly N matching calls in total on the
+    compiled instantiation of a `times` arm: by C06_admit / C06_exit (any linearisation of the N calls)
+    none is refused and the exit verdict is silent. -/
+def handleArmHammer (args obs : List String) : Verdict :=
+  match args with
+  | [_, _, _] =>
+    let ok := kv obs "refused" == some "0" && kv obs "exit" == some "ok" && !(obs.any (·.startsWith "DIED"))
+    { agree := ok, propOk := ok, branch := "arm-hammer",
+      detail := if ok then "" else " key=c06.arm-concurrent-budget key=c08.times-budget-concurrent" }
+  | _ => bad "arity"
+
 /-- `armrun <line> <N> <script> | rec rec … exit=…` with rec = `<c>:<ret>:<out>:<dA>:<dR>` -/
 def handleArmRun (args obs : List String) : Verdict := Id.run do
   match args with
